@@ -296,8 +296,9 @@ SADeserializeStrings(ser) ==
         while the type ByteArray declares, and decodes with, is little-endian;
      the typed memoryview of RunLength._encode accepts strided and read-only buffers, but no foreign byte order.
    Every other encoder computes a new native array from the values (data * factor, data - origin, searchsorted,
-   astype(np.int32), np.unique); TypeCode.from_dtype ignores the byte order and maps the 64-bit integers to the
-   32-bit codes.  EncR is Enc with these places spelled out; MCEnc checks EncR = Enc (InvRepFree). *)
+   astype(np.int32), np.unique) - with one exception, Delta on uint64 (DeltaPromoted below); TypeCode.from_dtype
+   ignores the byte order and maps the 64-bit integers to the 32-bit codes.  EncR is Enc with these places spelled
+   out; MCEnc checks EncR = Enc outside the recorded class (InvRepFree). *)
 Reps == {"native", "swapped", "strided", "reversed", "readonly", "unaligned", "foreign", "wide", "list"}
 RepsOf(A) ==
   {"native", "strided", "reversed", "readonly"}
@@ -325,9 +326,40 @@ EncRLR(e, A, r) ==
   LET base == EncRL(e, A) IN
   IF base.oc = "ok" /\ SafeCastOrder(A.t, r, OptOr(e[3], A.t)) = ">" THEN Rej(e)    \* buffer dtype mismatch
   ELSE base
-EncR(e, A, r) == CASE e[1] = "BA" -> EncBAR(e, A, r) [] e[1] = "RL" -> EncRLR(e, A, r) [] OTHER -> Enc(e, A)
-\* the representation does not matter (only the first encoding of a chain sees the input array)
-RepFree(chain, A) == chain = <<>> \/ \A r \in RepsOf(A) : EncR(chain[1], A, r) = Enc(chain[1], A)
+(* Delta on the unsigned 64-bit carrier (recorded defect DeltaUint64Promoted).  `data - origin` is computed in the
+   dtype of the data: for uint64 an element below the origin becomes 2^64 - k.  np.diff(data, prepend=0) then joins
+   the Python integer 0 with a uint64 array, which numpy promotes to float64: 2^64 - k is rounded to a multiple of
+   2048, the differences are taken in float64 and .astype(np.int32) turns +-1.8e19 into INT_MIN (numpy only warns
+   "invalid value encountered in cast").  For all other dtypes the arithmetic stays in the integer type (modulo its
+   width), which Wrap models; int64 cannot wrap on 32-bit values. *)
+DeltaPromoted(e, A, r) ==
+  /\ e[1] = "DE" /\ A.t = 6 /\ r = "wide" /\ A.v # <<>>
+  /\ \E i \in DOMAIN A.v : A.v[i] < OptOr(e[3], A.v[1])
+EncDER(e, A, r) ==
+  LET base == EncDE(e, A) IN
+  IF base.oc # "ok" \/ ~DeltaPromoted(e, A, r) THEN base
+  ELSE LET og == OptOr(e[3], A.v[1])
+           wrapped(i) == i >= 1 /\ A.v[i] < og                         \* the prepended 0 is not
+           below(i) == RoundHalfEven(og - A.v[i], 2048)                 \* float64(2^64 - k) = 2^64 - 2048 * below
+           df == [i \in DOMAIN A.v |->
+                    IF wrapped(i) # wrapped(i - 1) THEN MinInt32
+                    ELSE IF wrapped(i) THEN 2048 * (below(i - 1) - below(i))
+                    ELSE base.a.v[i]]
+       IN R("ok", Arr(3, df), base.e)
+EncR(e, A, r) == CASE e[1] = "BA" -> EncBAR(e, A, r) [] e[1] = "RL" -> EncRLR(e, A, r)
+                   [] e[1] = "DE" -> EncDER(e, A, r) [] OTHER -> Enc(e, A)
+\* recorded defects that depend on the representation (only the first encoding of a chain sees the input array;
+\* as KB_Data: only if the code gets as far as writing bytes)
+KB_Rep(chain, A, r) ==
+  IF chain # <<>> /\ DeltaPromoted(chain[1], A, r) /\ SerializeData(chain, A).oc = "ok"
+  THEN {"DeltaUint64Promoted"} ELSE {}
+\* the representation does not matter, except in the recorded class (and there it does)
+RepFree(chain, A) ==
+  chain = <<>> \/ \A r \in RepsOf(A) : (EncR(chain[1], A, r) = Enc(chain[1], A)) = ~DeltaPromoted(chain[1], A, r)
+\* INT_MIN (what the promoted Delta produces) is not pushed through integer packing: one number would become
+\* 2^31 / 127 bytes
+Dom_RepSafe(chain, A, r) ==
+  (chain # <<>> /\ DeltaPromoted(chain[1], A, r)) => \A i \in DOMAIN chain : chain[i][1] # "IP"
 
 (* ================================================================== the property *)
 \* can the target representation of one encoding hold its input?
@@ -429,7 +461,8 @@ IsCandidate(chain) == [i \in DOMAIN chain |-> Strip(chain[i])] \in Candidates
 \* relative tolerance 1 / T of compress(): |y - x| <= |x| / T   (fx units, one unit of slack)
 AcceptRel(T, t, x, y) ==
   IF ~IsFinite(x) THEN y = x
-  ELSE IF x.k = "whole" THEN y.k = "whole" /\ Abs(y.fx - x.fx) <= Abs(x.fx) \div T + 1
+  \* (same sign first: |x| > 1024, and the difference of two values of opposite sign may leave TLC's integers)
+  ELSE IF x.k = "whole" THEN y.k = "whole" /\ (y.fx > 0) = (x.fx > 0) /\ Abs(y.fx - x.fx) <= Abs(x.fx) \div T + 1
   ELSE y.k = "fin" /\ Abs(y.fx - x.fx) <= Abs(x.fx) \div T + FloatSlack(t, x.fx)
 (* compress() of a float array multiplies by 10^d (d chosen from the element that needs most
    decimals) and rounds to int32 without a range or finiteness check: the FixedPoint defect, reached
@@ -538,7 +571,8 @@ SciTol(t, T, m) == Abs(m) \div T + 2 + (IF t = 32 THEN Abs(m) \div 1048576 ELSE 
 AcceptSci(t, T, x, y) ==
   IF x.k # "num" THEN y.k = x.k
   ELSE IF x.m = 0 THEN y.k = "num" /\ y.fx = 0 /\ y.ex
-  ELSE y.k = "num" /\ Abs(y.fx - x.m) <= SciTol(t, T, x.m)
+  \* (written without y.fx - x.m: a corrupted value may be 2^31 away from x.m, beyond TLC's integers)
+  ELSE y.k = "num" /\ x.m - SciTol(t, T, x.m) <= y.fx /\ y.fx <= x.m + SciTol(t, T, x.m)
 (* ------------------------------------------------------------------ recorded defects *)
 \* the search for the decimals never ended when SciExhausted(A, T); repaired by commit 03760635 (/repo):
 \* _get_decimal_places returns None as soon as the rounded values are not finite, compress() then keeps the
